@@ -205,9 +205,9 @@ def pick_variant(ctx, voxels, cseg_ok=True, scales=None):
     if averaging and dtype == "uint64" and rng.random() < 0.6:
         kind = "big"        # values >= 2^53 (up to the top of the range): float64 averaging is inexact
     # --outside-value of the averaging method (border blocks completed with it)
-    outside = rng.choice([None, None, 0, 7]) if averaging else None
+    outside = rng.choice([None, None, 0, 7, 100.5]) if averaging else None      # (the option is a float)
     if method == "auto":
-        outside = rng.choice([None, 0, 7, 7])      # (irrelevant when striding is selected)
+        outside = rng.choice([None, 0, 7, 2.5])      # (irrelevant when striding is selected)
     via = rng.choice(["lib", "lib", "cli"])
     return {"method": method, "itype": itype, "dtype": dtype, "channels": channels, "encoding": enc,
             "storage": storage, "kind": kind, "outside": outside, "via": via,
